@@ -1,6 +1,7 @@
 import Driver.Proto
 import PqModel.Aad
 import PqModel.EncWalk
+import PqModel.EncConfig
 
 namespace Driver.Ops.C18
 open Driver PqModel.Aad
@@ -61,6 +62,33 @@ def parseWOp? (s : String) : Option WOp :=
     | _, _, _ => none
   | _ => none
 
+/-- one token of an option structure: `E<id>` / `E-` = `WithEncryption(cfg)` / `WithEncryption(nil)`,
+    `S<id>` / `S-` = a configuration struct with / without the field, `O` = any other option,
+    `[` … `]` = `NewWriterConfig(…)` whose result is passed on as one struct option -/
+def parseCfgTok? (s : String) : Option PqModel.EncConfig.Tok :=
+  open PqModel.EncConfig in
+  match s with
+  | "O" => some (.opt .other)
+  | "[" => some .openG
+  | "]" => some .closeG
+  | "E-" => some (.opt (.withEnc none))
+  | "S-" => some (.opt (.config none))
+  | _ =>
+    if s.startsWith "E" then (parseNat? (s.drop 1).toString).map (fun n => .opt (.withEnc (some n)))
+    else if s.startsWith "S" then (parseNat? (s.drop 1).toString).map (fun n => .opt (.config (some n)))
+    else none
+
+/-- `enc.config <token> ...` -> `ok <id | ->` (the Encryption / Decryption field after
+    `NewWriterConfig` / `NewFileConfig` of the option structure) or `unbalanced` -/
+def handleCfg (toks : List String) : String :=
+  match toks.mapM parseCfgTok? with
+  | none => "bad-op"
+  | some ts =>
+    match PqModel.EncConfig.runToks ts with
+    | none => "unbalanced"
+    | some none => "ok -"
+    | some (some n) => s!"ok {n}"
+
 /-- `aad <prefix hex> <fileid hex> <module type> <rg> <col> <page>` -> `ok <aad hex>`
     (ordinals a module type does not carry are ignored)
 
@@ -70,6 +98,7 @@ def parseWOp? (s : String) : Option WOp :=
     `kind:rg:col:page:<module type passed>:<ordinals passed, dot separated>:<identifier generation | n>` -/
 def handle (toks : List String) : Option String :=
   match toks with
+  | "enc.config" :: cfg => some (handleCfg cfg)
   | "aad.wrun" :: ncols :: dict :: bloom :: reread :: plain :: ops => some <|
     match parseNat? ncols, parseCols? dict, parseCols? bloom, parseCols? reread, parseNat? plain, ops.mapM parseWOp? with
     | some ncols, some dict, some bloom, some reread, some plain, some ops =>
